@@ -834,11 +834,11 @@ theorem setHoldPoint_fold (p : Int) : ∀ (l done : List Proxy) (st : State),
       rw [holdActive_spec st x, hres']
       cases hc' : st.tasksToHold.contains (x.name, x.pt) with
       | true =>
-        simp only [List.map_cons, List.foldl_cons, addHold, holdBeyond, hgt, if_true, hc', List.append_assoc,
+        simp only [List.map_cons, addHold, holdBeyond, hgt, if_true, hc', List.append_assoc,
           List.singleton_append]
         rfl
       | false =>
-        simp only [List.map_cons, List.foldl_cons, addHold, holdBeyond, hgt, if_true, hc', List.append_assoc,
+        simp only [List.map_cons, addHold, holdBeyond, hgt, if_true, hc', List.append_assoc,
           List.singleton_append, Bool.false_eq_true, if_false]
         rfl
     · simp only [hgt, if_false]
@@ -851,7 +851,7 @@ theorem setHoldPoint_fold (p : Int) : ∀ (l done : List Proxy) (st : State),
           subst h
           intro hc; exact hxl b hb ⟨hc.1.symm, hc.2.symm⟩
       rw [ih _ st hp' hdis' hnd']
-      simp only [List.map_cons, List.foldl_cons, addHold, holdBeyond, hgt, if_false, List.append_assoc,
+      simp only [List.map_cons, addHold, holdBeyond, hgt, if_false, List.append_assoc,
         List.singleton_append]
 
 theorem setHoldPoint_spec (s : State) (p : Int) (h : NoDup s) :
@@ -1046,12 +1046,12 @@ theorem restoreProxy_done (x : Proxy) :
     (restoreProxy x).done =
       (if x.status = .running ∨ x.status = .failed ∨ x.status = .succeeded then x.done else []) := by
   unfold restoreProxy
-  cases hs : x.status <;> simp [hs]
+  cases hs : x.status <;> simp
 
 theorem restoreProxy_runahead (x : Proxy) :
     (restoreProxy x).runahead = !(x.status == .failed || x.status == .succeeded || x.status == .expired) := by
   unfold restoreProxy
-  cases hs : x.status <;> simp [hs] <;> decide
+  cases hs : x.status <;> simp <;> decide
 
 /-! ### The spawn decision reads only data that a restart preserves -/
 
@@ -1235,5 +1235,152 @@ theorem after_mem_run (g : Graph) (ops : List Op) : after g ops ∈ run g ops :=
       apply ih
       simp
   exact key ops [init g] (init g) (by simp)
+
+/-! ### Two restarts in a row -/
+
+/-- forget the `is_updated` flag -/
+def forgetUpd (x : Proxy) : Proxy := { x with upd := false }
+
+theorem holdBeyond_eq (p : Int) (y : Proxy) :
+    holdBeyond p y = { y with held := y.held || decide (y.pt > p), upd := y.upd || (decide (y.pt > p) && !y.held) } := by
+  unfold holdBeyond
+  by_cases hgt : y.pt > p
+  · simp only [hgt, if_true]
+    unfold Proxy.reset
+    simp only [Option.getD_some, Option.getD_none, beq_self_eq_true, Bool.true_and, Bool.and_true]
+    cases hh : y.held
+    · simp
+    · cases y; simp_all
+  · have hlt : decide (y.pt > p) = false := by simpa using hgt
+    simp only [hgt, if_false]
+    cases y; simp
+
+theorem restoreProxy_held_upd (w : Proxy) (h u : Bool) :
+    restoreProxy { w with held := h, upd := u } = { restoreProxy w with held := h } := by
+  unfold restoreProxy
+  simp only
+
+theorem forget_restore_restore (x : Proxy) : forgetUpd (restoreProxy (restoreProxy x)) = forgetUpd (restoreProxy x) := by
+  unfold restoreProxy forgetUpd
+  cases hs : x.status <;> simp <;> decide
+
+theorem restoreProxy_pt (x : Proxy) : (restoreProxy x).pt = x.pt := (restoreProxy_other x).1
+
+/-- a second restart with nothing in between changes a restored proxy in its `is_updated` flag at most -/
+theorem norm_idem (hp : Option Int) (x : Proxy) :
+    forgetUpd (normProxy hp (normProxy hp x)) = forgetUpd (normProxy hp x) := by
+  cases hp with
+  | none => exact forget_restore_restore x
+  | some p =>
+    simp only [normProxy]
+    generalize hr : restoreProxy x = r
+    have hrr : forgetUpd (restoreProxy r) = forgetUpd r := by rw [← hr]; exact forget_restore_restore x
+    rw [holdBeyond_eq p r, restoreProxy_held_upd, holdBeyond_eq]
+    simp only [restoreProxy_pt]
+    have h1 : (restoreProxy r).held = r.held := (restoreProxy_other r).2.2.2.1
+    unfold forgetUpd at *
+    have h2 : restoreProxy r = { r with upd := (restoreProxy r).upd } := by
+      have := hrr
+      cases hq : restoreProxy r
+      cases r
+      simp_all
+    rw [h2]
+    cases r
+    simp
+
+
+
+theorem addHold_mem (hp : Int) : ∀ (l : List Proxy) (th : List (String × Int)) (k : String × Int),
+    k ∈ th → k ∈ l.foldl (addHold hp) th := by
+  intro l
+  induction l with
+  | nil => intro th k h; exact h
+  | cons x l ih =>
+    intro th k h
+    simp only [List.foldl_cons]
+    apply ih
+    unfold addHold
+    split
+    · split
+      · exact h
+      · exact List.mem_append_left _ h
+    · exact h
+
+theorem addHold_covers (hp : Int) : ∀ (l : List Proxy) (th : List (String × Int)),
+    ∀ x ∈ l, x.pt > hp → (x.name, x.pt) ∈ l.foldl (addHold hp) th := by
+  intro l
+  induction l with
+  | nil => intro th x hx; simp at hx
+  | cons y l ih =>
+    intro th x hx hgt
+    simp only [List.foldl_cons]
+    rcases List.mem_cons.mp hx with h | h
+    · subst h
+      apply addHold_mem
+      unfold addHold
+      simp only [hgt, if_true]
+      split
+      · rename_i hc; simpa using hc
+      · exact List.mem_append_right _ (List.mem_singleton.mpr rfl)
+    · exact ih _ x h hgt
+
+theorem addHold_noop (hp : Int) : ∀ (l : List Proxy) (th : List (String × Int)),
+    (∀ x ∈ l, x.pt > hp → (x.name, x.pt) ∈ th) → l.foldl (addHold hp) th = th := by
+  intro l
+  induction l with
+  | nil => intro th _; rfl
+  | cons x l ih =>
+    intro th h
+    simp only [List.foldl_cons]
+    have hx : addHold hp th x = th := by
+      unfold addHold
+      split
+      · rename_i hgt
+        have := h x (List.mem_cons_self) hgt
+        simp [this]
+      · rfl
+    rw [hx]
+    exact ih th (fun y hy => h y (List.mem_cons_of_mem _ hy))
+
+/-- **A second restart with nothing in between changes nothing** but the internal `is_updated` flags: the pool, the
+holds, the hold / stop point, the stop task, the absolute outputs and the history are those of the first restart
+("any number of successive restarts") -/
+theorem restart_restart (g : Graph) (s : State) (h : NoDup s) :
+    (restart g (restart g s)).pool.map forgetUpd = (restart g s).pool.map forgetUpd ∧
+    (restart g (restart g s)).tasksToHold = (restart g s).tasksToHold ∧
+    (restart g (restart g s)).holdPoint = (restart g s).holdPoint ∧
+    (restart g (restart g s)).stopPoint = (restart g s).stopPoint ∧
+    (restart g (restart g s)).stopTask = (restart g s).stopTask ∧
+    (restart g (restart g s)).absDone = (restart g s).absDone ∧
+    (restart g (restart g s)).hist = (restart g s).hist := by
+  have hr : NoDup (restart g s) := (inv_restart g s h).1
+  have hg := restart_globals g s
+  have hg2 := restart_globals g (restart g s)
+  refine ⟨?_, ?_, hg2.1, ?_, hg2.2.1, hg2.2.2.1, hg2.2.2.2.1⟩
+  · rw [restart_pool g _ hr, hg.1, restart_pool g s h, List.map_map, List.map_map, List.map_map]
+    apply List.map_congr_left
+    intro x _
+    exact norm_idem _ x
+  · rw [restart_spec g _ hr, hg.1]
+    cases hh : s.holdPoint with
+    | none => rfl
+    | some hp =>
+      simp only
+      apply addHold_noop
+      intro y hy hgt
+      obtain ⟨z, hz, rfl⟩ := List.mem_map.mp hy
+      rw [(restoreProxy_other z).1] at hgt
+      rw [(restoreProxy_other z).1, (restoreProxy_other z).2.1]
+      -- `z` is a proxy of the first restart: the image of some `x` of `s`
+      rw [restart_spec g s h, hh] at hz ⊢
+      simp only at hz ⊢
+      obtain ⟨w, hw, rfl⟩ := List.mem_map.mp hz
+      rw [(holdBeyond_other hp w).1] at hgt
+      rw [(holdBeyond_other hp w).1, (holdBeyond_other hp w).2.1]
+      exact addHold_covers hp _ _ w hw hgt
+  · have i1 := (inv_restart g s h).2 (by rw [hg.2.2.2.2.2.1]; simp)
+    have i2 := (inv_restart g _ hr).2 (by rw [hg2.2.2.2.2.2.1]; simp)
+    unfold stopQ at i1 i2
+    rw [i2, i1, hg2.2.2.2.2.1]
 
 end CylcModel.Sched2
